@@ -326,6 +326,51 @@ def rule_r5(ctx, sf: SqlFacts) -> RuleResult:
     return rr
 
 
+def rule_r8(ctx) -> RuleResult:
+    """analyze_and_overwrite_pages first asks overwrite_single_page() in a dry run whether an override
+    entry is a template (to decide that templates must be analysed again after the overwrite) and
+    later lets the same function store the entry.  Both runs must resolve the entry's namespace the
+    same way: the dry-run answer is a comparison of the *resolved* namespace id with the template
+    namespace id -- not a guess from the title's spelling (an entry given as bare title plus
+    namespace_id 10 is stored as a template by add_page)."""
+    rr = RuleResult("C17.R8", "the dry run of an override classifies it by the namespace id the real run stores it under", min_instances=2)
+    fn = ctx.fn("dumpparser.overwrite_single_page")
+    ns_assigns = [n for n in walk_no_nested(fn) if isinstance(n, ast.Assign) and any(isinstance(t, ast.Name) and t.id == "namespace_id" for t in n.targets)]
+    if not ns_assigns:
+        raise AnalysisError("overwrite_single_page: resolution of namespace_id vanished")
+    resolved_line = max(n.lineno for n in ns_assigns)
+    rets = [r for r in walk_no_nested(fn) if isinstance(r, ast.Return) and r.value is not None
+            and not (isinstance(r.value, ast.Constant) and r.value.value is False)]
+    if not rets:
+        raise AnalysisError("overwrite_single_page: no return that can answer True")
+    parents = ctx.index.mod("dumpparser").parents
+    for r in rets:
+        exprs = [r.value]
+        q = r
+        while q in parents and parents[q] is not fn:
+            q = parents[q]
+            if isinstance(q, ast.If):
+                exprs.append(q.test)
+        text = " and ".join(unparse(e) for e in exprs)
+        uses_ns = any(isinstance(x, ast.Name) and x.id == "namespace_id" for e in exprs for x in ast.walk(e))
+        by_spelling = any(isinstance(x, ast.Attribute) and x.attr in ("startswith", "find", "index", "partition", "split") for e in exprs for x in ast.walk(e))
+        if uses_ns and not by_spelling and r.lineno > resolved_line:
+            rr.ok("dumpparser.overwrite_single_page", "is-template answer: " + text[:70], {"answer": text[:70]})
+        else:
+            rr.bad(Finding("C17.R8", "src/wikitextprocessor/dumpparser.py", "dumpparser.overwrite_single_page", text[:80],
+                           "the dry run decides 'is a template' without the resolved namespace id (from the title's spelling, or before the id is "
+                           "resolved): an override given as bare title + namespace_id is stored as a template but not analysed again, so the "
+                           "marked set is not the closure over the final page store", r.lineno))
+    # the store call uses the same resolved id
+    adds = [c for c in walk_no_nested(fn) if isinstance(c, ast.Call) and unparse(c.func).endswith(".add_page")]
+    if adds and all(len(c.args) >= 2 and unparse(c.args[1]) == "namespace_id" and c.lineno > resolved_line for c in adds):
+        rr.ok("dumpparser.overwrite_single_page", "add_page(title, namespace_id, ...) after the id is resolved")
+    else:
+        rr.bad(Finding("C17.R8", "src/wikitextprocessor/dumpparser.py", "dumpparser.overwrite_single_page", "add_page(title, namespace_id, ...)",
+                       "the real run does not store the entry under the resolved namespace id", fn.lineno))
+    return rr
+
+
 def run(ctx) -> list:
     from ..core.report import shared
     from . import c10
@@ -335,4 +380,4 @@ def run(ctx) -> list:
                 "a later analysis on the same context skips templates it wrongly believes to be marked", min_instances=3)
     r7 = shared(c10.rule_r11(ctx, sf), "C17.R7", "the work list finds every stored template by its stored title (shared with C10.R11)",
                 "a template whose stored title the reader-side normalisation changes is never reached by the propagation", min_instances=1)
-    return [rule_r1(ctx), rule_r2(ctx), rule_r3(ctx, sf), rule_r4(ctx, sf), rule_r5(ctx, sf), r6, r7]
+    return [rule_r1(ctx), rule_r2(ctx), rule_r3(ctx, sf), rule_r4(ctx, sf), rule_r5(ctx, sf), r6, r7, rule_r8(ctx)]
